@@ -51,6 +51,15 @@ def cases(tier, salts):
                         for box in ("none", "inactive"):
                             out.append({"m": n, "n": n, "lam": lam, "reg": reg, "box": box, "x0": "ls", "conv": "closure",
                                         "scaling": False, "salt": salt})
+            # two samples per point (the documented nsamples argument; wave i: the stored objective of a RE-sampled point
+            # took h at the incumbent instead of at the point itself - invisible unless a point is sampled more than once)
+            if salt == 0:
+                for lam in (LAMS[-1], "rel0.7", "rel1.5"):
+                    for reg in ("l1", "l2"):
+                        for box in ("none", "active"):
+                            for x0k in ("ordinary", "ls"):
+                                out.append({"m": m, "n": n, "lam": lam, "reg": reg, "box": box, "x0": x0k, "conv": "closure",
+                                            "scaling": False, "salt": salt, "ns": "const2"})
             for lam in LAMS:
                 for reg in ("l1", "l2"):
                     # regulariser + internal scaling (documented limitation: recorded as a known finding)
@@ -129,13 +138,15 @@ def check_case(case):
     Fstar, xstar = reference(A, b, case["reg"], lam, lo, hi)
     cfg = {"prob": {"f": "lin", "A": A.tolist(), "b": b.tolist(), "salt": 0}, "x0": x0.tolist(), "memo": True,
            "reg": {"r": case["reg"], "lam": lam, "args": case["conv"] == "args"}}
+    if case.get("ns"):
+        cfg["nsamples"] = case["ns"]
     if bounded:
         cfg["lo"], cfg["hi"] = lo.tolist(), hi.tolist()
         if case["scaling"]:
             cfg["scaling"] = True
     ex = solvex.Execution(cfg, monitors=[mon.BoundsMonitor()]).run()
     v = []
-    tags = ["conv:" + case["conv"], "reg:" + case["reg"], "box:" + case["box"]]
+    tags = ["conv:" + case["conv"], "reg:" + case["reg"], "box:" + case["box"]] + (["resampled"] if case.get("ns") else [])
     if float(np.sum((A.dot(x0) - b) ** 2)) <= 1e-12:
         tags.append("zero_residual_at_x0")
     if isinstance(case["lam"], str):
